@@ -7,6 +7,7 @@
 (*    Q  "      PL  %(      PR  %)      L  (      R  )      X  1           *)
 (*    N  a newline       BQ  \"  (an escaped quote)                         *)
 (*    BSQ  \\"  (an escaped backslash with a quote right after it)           *)
+(*    PPL  %%(     PPR  %%)   (an escaped percent sign with a bracket after)  *)
 (*                                                                         *)
 (* MEANING (doc/syntax.rst, "Formatting strings"): a program is a sequence *)
 (* of items; an item is a number, a parenthesised program or a string; a   *)
@@ -31,10 +32,11 @@ EXTENDS Naturals, Sequences, FiniteSets, TLC
 
 CONSTANTS MaxLen, NoReset,
           Pinned,      \* "none"; "dropnl": the catch-all of STRING_EMBEDDED is `.', a newline is not copied (before fix
-                       \* 826b041); "nopair": STRING_EMBEDDED knows \" but not \\ (before fix fac838a).  Self-tests.
+                       \* 826b041); "nopair": STRING_EMBEDDED knows \" but not \\ (before fix fac838a); "nopct": it does
+                       \* not know %% (before fix 95d6edf).  Self-tests.
           SpliceLimit, \* how deep splices may nest (parser.yy: every %( %) is parsed by a parser of its own on the C
                        \* stack, started from inside the lexer of the enclosing one; max_subquery_depth - 1 = 255)
-          Tok          \* the alphabet of this run, a subset of {"Q", "PL", "PR", "L", "R", "X", "N", "BQ", "BSQ"}
+          Tok          \* the alphabet of this run, a subset of {"Q", "PL", "PR", "L", "R", "X", "N", "BQ", "BSQ", "PPL", "PPR"}
 
 -----------------------------------------------------------------------------
 (* MEANING: end positions of the derivations starting at position i *)
@@ -57,7 +59,7 @@ ItemEnds(w, i, d) ==
 PartsEnds(w, i, d) ==
     {i} \cup
     (IF i > Len(w) THEN {}
-     ELSE CASE w[i] \in {"X", "L", "R", "N", "BQ"} -> PartsEnds(w, i + 1, d)
+     ELSE CASE w[i] \in {"X", "L", "R", "N", "BQ", "PPL", "PPR"} -> PartsEnds(w, i + 1, d)
             [] w[i] = "PR" -> IF d = 0 THEN PartsEnds(w, i + 1, d) ELSE {}
             [] w[i] = "PL" -> IF d + 1 > SpliceLimit THEN {}        \* nested too deeply: rejected, not a crash
                               ELSE UNION {PartsEnds(w, k + 1, d) : k \in {k \in PEnds(w, i + 1, d + 1) : k <= Len(w) /\ w[k] = "PR"}}
@@ -81,6 +83,13 @@ LexEmb(w, i, level, ins, body) ==
       \* \\" : inside a nested literal an escaped backslash, elsewhere two backslashes -- and then a quote
       [] t = "BSQ" -> LexEmb(w, i + 1, level, IF Pinned = "nopair" THEN ins ELSE ~ins, Append(body, t))
       [] t = "N" -> LexEmb(w, i + 1, level, ins, IF Pinned = "dropnl" THEN body ELSE Append(body, t))
+      \* %%( and %%): inside a nested literal a percent sign and a bracket that is not counted; elsewhere (and
+      \* everywhere before the fix) a percent sign and then the delimiter %( resp. %)
+      [] t = "PPL" -> IF ins /\ Pinned # "nopct" THEN LexEmb(w, i + 1, level, ins, Append(body, t))
+                      ELSE LexEmb(w, i + 1, level + 1, FALSE, Append(body, t))
+      [] t = "PPR" -> IF ins /\ Pinned # "nopct" THEN LexEmb(w, i + 1, level, ins, Append(body, t))
+                      ELSE IF level = 0 THEN [ok |-> TRUE, end |-> i + 1, body |-> Append(body, "PCT"), ins |-> TRUE]
+                      ELSE LexEmb(w, i + 1, level - 1, TRUE, Append(body, t))
       [] t = "PL" -> LexEmb(w, i + 1, level + 1, FALSE, Append(body, t))
       [] t = "PR" -> IF level = 0 THEN [ok |-> TRUE, end |-> i + 1, body |-> body, ins |-> TRUE]
                      ELSE LexEmb(w, i + 1, level - 1, TRUE, Append(body, t))
@@ -134,7 +143,8 @@ MechanismIsTheLanguage == Disagree = {}
 
 \* what the lexer hands to the parser of a splice is the text between %( and the %) that ends it, nothing
 \* dropped and nothing added (from any %( of any sequence, whatever surrounds it)
-SpliceFaithful(w, i) == LET e == LexEmb(w, i + 1, 0, FALSE, <<>>) IN e.ok => e.body = SubSeq(w, i + 1, e.end - 2)
+SpliceFaithful(w, i) == LET e == LexEmb(w, i + 1, 0, FALSE, <<>>) IN
+                        (e.ok /\ w[e.end - 1] = "PR") => e.body = SubSeq(w, i + 1, e.end - 2)
 Unfaithful == {w \in All : \E i \in 1..Len(w) : w[i] = "PL" /\ ~SpliceFaithful(w, i)}
 SplicesAreSubtexts == Unfaithful = {}
 
@@ -144,7 +154,12 @@ Witnesses == {<<"Q", "PL", "Q", "BSQ", "Q", "R", "Q", "PR", "Q">>,          \* "
               <<"Q", "PL", "Q", "BSQ", "Q", "L", "Q", "PR", "Q">>,          \* "%( "\\" "(" %)"
               <<"Q", "PL", "Q", "BQ", "BSQ", "Q", "R", "Q", "PR", "Q">>,    \* "%( "\"\\" ")" %)"
               <<"Q", "PL", "Q", "N", "BSQ", "N", "Q", "R", "N", "Q", "PR", "Q">>,
-              <<"Q", "PL", "X", "N", "X", "N", "Q", "N", "Q", "PR", "N", "Q">>}
-WitnessesOK == \A w \in Witnesses : InLanguage(w) /\ MAccept(w) /\ \A i \in 1..Len(w) : w[i] = "PL" => SpliceFaithful(w, i)
+              <<"Q", "PL", "X", "N", "X", "N", "Q", "N", "Q", "PR", "N", "Q">>,
+              <<"Q", "PL", "Q", "PPR", "Q", "PR", "Q">>,                    \* "%( "%%)" %)"
+              <<"Q", "PL", "Q", "PPL", "Q", "PR", "PPR", "Q">>,             \* "%( "%%(" %) %%)"
+              <<"Q", "PL", "Q", "X", "PL", "Q", "PPR", "Q", "PR", "X", "Q", "PR", "Q">>}
+WitnessesOK == \A w \in Witnesses : /\ InLanguage(w) = MAccept(w)
+                                    /\ (SpliceLimit >= 2 => InLanguage(w))       \* none nests deeper than two splices
+                                    /\ \A i \in 1..Len(w) : w[i] = "PL" => SpliceFaithful(w, i)
 
 =============================================================================
